@@ -257,12 +257,18 @@ def check_stmt(stmt, q, res, want_sample=False):
                                [True, False], repeat=len(ref.choices))])
                    for k, v in regions.items()}
     outside = [Not(v) for v in regions.values()]
-    res["obligations"] += 1
-    t0 = time.time()
     # search hints (used only to find models of undecided queries): small
     # operand values
     hints = [z3.ULT(lv.v + 16, bv(32)) for p, lv in leafvals.items()
              if plan.info[p][0] != "const"]
+    if pre:
+        rv_, _ = q.check(*base, *pre, hints=hints)
+        if rv_ == "unsat":       # shape outside the property's precondition
+            res["vacuous"] = res.get("vacuous", 0) + 1
+            return
+        res["nonvacuous"] = res.get("nonvacuous", 0) + 1
+    res["obligations"] += 1
+    t0 = time.time()
     r, m = q.check(*base, *pre, neg, *outside, hints=hints)
     res.setdefault("slow", []).append((round(time.time() - t0, 2), sig))
     rargs = (stmt, plan, e, code, maps, insns, leafaddr, mem0, W, expr, d,
@@ -311,10 +317,6 @@ def check_stmt(stmt, q, res, want_sample=False):
                        f"{'pre => ' if pre else ''}stored({leafclass(stmt[1])}) "
                        f"== ref mod 2^{8 * dsize}",
             result=r))
-    # vacuity: precondition satisfiable (checked on sampled shapes only)
-    if want_sample and pre:
-        r2, _ = q.check(*base, *pre)
-        res["vacuity"].append((f"pre satisfiable: {sig}", r2 == "sat"))
 
 
 def plan_mark(plan):
@@ -430,8 +432,11 @@ def main(tier, replay_file=None):
               for i in range(nchunks)]
     common.prove_lemmas(ck)
     agg = {}
+    vac = nonvac = 0
     for res in common.pmap(worker, [c for c in chunks if c[0]]):
         ck.add(res)
+        vac += res.get("vacuous", 0)
+        nonvac += res.get("nonvacuous", 0)
         agg["rejected"] = agg.get("rejected", 0) + res.get("rejected", 0)
         for k in ("abs_decided", "fb_decided"):
             agg[k] = agg.get(k, 0) + res.get(k, 0)
@@ -443,4 +448,7 @@ def main(tier, replay_file=None):
     ck.extra["rejected_by_generator"] = agg.get("rejected", 0)
     ck.extra["generator_crashes"] = {k: v[:3] for k, v in
                                      agg.get("reject_kinds", {}).items()}
+    ck.extra["shapes_with_unsatisfiable_precondition_skipped"] = vac
+    ck.extra["shapes_with_satisfiable_precondition"] = nonvac
+    ck.vacuity.append(("preconditions are satisfiable on the shapes counted", nonvac > 0 or bool(replay_file)))
     return ck.finish()
